@@ -149,7 +149,7 @@ Definition good_t (t : tcont) (b : bcont) (p : nat * regt * nat) (pd : nat) : Pr
 
 Definition honest (d : disk fkey bcont) : Prop :=
   forall di k c, In (di, k, c) d ->
-    match c with FGood b => b = ideal (fst k) (snd k) | FBad _ => True | FShape => False end.
+    match c with FGood b => b = ideal (fst k) (snd k) | FBad _ => True | FShape => True end.
 
 Definition Inv (s : st) : Prop :=
   match bs s, bs_prm s with
@@ -171,7 +171,7 @@ Lemma honest_filter : forall d f, honest d -> honest (filter f d).
 Proof. unfold honest. intros d f H di k c Hin. apply filter_In in Hin. destruct Hin. eapply H; eauto. Qed.
 
 Lemma honest_put : forall d di k c, honest d ->
-  match c with FGood b => b = ideal (fst k) (snd k) | FBad _ => True | FShape => False end ->
+  match c with FGood b => b = ideal (fst k) (snd k) | FBad _ => True | FShape => True end ->
   honest (put_file fkey_eqb di k c d).
 Proof.
   unfold honest, put_file, remove_file. intros d di k c H Hc di' k' c' [Hin|Hin].
@@ -192,20 +192,23 @@ Qed.
 (* ---- _load_bs picks a sufficient file of the right degree --------------- *)
 Lemma best_file_spec : forall l n deg acc r (Q : fkey * fstate bcont -> Prop),
   (forall a, acc = Some a -> Q a) ->
-  (forall k c, In (k, c) l -> snd k = deg -> n <= fst k -> Q (k, c)) ->
+  (forall k c, In (k, c) l -> snd k = deg -> n <= fst k -> (deg = 3 -> fst k = n) -> Q (k, c)) ->
   best_file n deg l acc = Some r -> Q r.
 Proof.
   induction l as [|[k c] l IH]; intros n deg acc r Q Ha Hl Hb; simpl in Hb.
   - apply Ha; auto.
   - eapply IH; [| |exact Hb].
     + intros a Ea.
-      destruct ((snd k =? deg) && (n <=? fst k) &&
-                match acc with Some (k', _) => fst k <? fst k' | None => true end) eqn:E1.
+      destruct ((snd k =? deg) &&
+                (if deg =? 3 then fst k =? n
+                 else (n <=? fst k) &&
+                      match acc with Some (k', _) => fst k <? fst k' | None => true end)) eqn:E1.
       * inversion Ea; subst.
-        apply andb_true_iff in E1. destruct E1 as [E1 _].
-        apply andb_true_iff in E1. destruct E1 as [E1 E2].
-        apply Nat.eqb_eq in E1. apply Nat.leb_le in E2.
-        apply Hl; auto. left; reflexivity.
+        apply andb_true_iff in E1. destruct E1 as [E1 E2]. apply Nat.eqb_eq in E1.
+        destruct (deg =? 3) eqn:E3.
+        -- apply Nat.eqb_eq in E2. apply Hl; auto; [left; reflexivity|lia].
+        -- apply andb_true_iff in E2. destruct E2 as [E2 _]. apply Nat.leb_le in E2.
+           apply Nat.eqb_neq in E3. apply Hl; auto; [left; reflexivity|congruence].
       * apply Ha; auto.
     + intros k' c' Hin. apply Hl. right; auto.
 Qed.
@@ -241,11 +244,11 @@ Proof.
   - rewrite Ht. reflexivity.
 Qed.
 
-Lemma fresh_expected : forall n deg rt z fwd bd l,
+Lemma fresh_expected : forall n deg rt z fwd bd,
   match bd with BPath d => dir_writable d = true | _ => True end ->
-  fresh (Call n deg rt z fwd bd l) = Ret (expected n deg rt z fwd).
+  fresh (Call n deg rt z fwd bd) = Ret (expected n deg rt z fwd).
 Proof.
-  intros n deg rt z fwd bd l Hw. unfold fresh, step_call.
+  intros n deg rt z fwd bd Hw. unfold fresh, step_call.
   destruct bd as [| |d]; [| |rewrite Hw]; cbn -[compute]; apply compute_fresh; reflexivity.
 Qed.
 
@@ -362,133 +365,31 @@ Qed.
 Lemma Inv_with_gdir : forall s g, Inv s -> Inv (with_gdir s g).
 Proof. intros s g H. exact H. Qed.
 
-Lemma ensure_good : forall s n deg rt z fwd bd lastsz s1 oe,
-  Inv s -> hazard s (Call n deg rt z fwd bd lastsz) = false ->
-  ensure_bs s n deg bd lastsz = (s1, oe) ->
+Lemma crop_ideal_good : forall n N deg, n <= N -> deg <= 3 -> (deg = 3 -> N = n) ->
+  good_b (crop n (ideal N deg)) n deg.
+Proof.
+  intros n N deg Hn Hd H3. unfold crop, good_b. cbn [b_size ideal].
+  destruct (n <? N) eqn:E4; cbn [b_deg b_gen b_size b_junk ideal].
+  - apply Nat.ltb_lt in E4. repeat split; auto; intros E; specialize (H3 E); lia.
+  - apply Nat.ltb_ge in E4. repeat split; auto; try lia; intros E; specialize (H3 E); lia.
+Qed.
+
+Lemma ensure_good : forall s n deg rt z fwd bd s1 oe,
+  Inv s -> hazard s (Call n deg rt z fwd bd) = false ->
+  ensure_bs s n deg bd = (s1, oe) ->
   Inv s1 /\
   (oe = None -> exists b pn, bs s1 = Some b /\ bs_prm s1 = Some (pn, deg) /\
                              n <= pn /\ (deg = 3 -> pn = n)).
 Proof.
-  intros s n deg rt z fwd bd lastsz s1 oe HI Hz He.
+  intros s n deg rt z fwd bd s1 oe HI Hz He.
   cbn [hazard] in Hz.
-  apply orb_false_iff in Hz. destruct Hz as [Hz Hz3].
   apply orb_false_iff in Hz. destruct Hz as [Hdeg Hbad].
   apply Nat.ltb_ge in Hdeg.
   unfold ensure_bs in He. unfold bs_ok in *.
   pose proof HI as [HI1 Hh].
-  destruct (bs s) as [b|] eqn:Eb.
-  - destruct (bs_prm s) as [[pn pd]|] eqn:Ep; [|contradiction].
-    destruct ((pd =? deg) && (if deg =? 3 then pn =? n else n <=? pn)) eqn:Eok.
-    + inversion He; subst. split; auto. intros _.
-      apply andb_true_iff in Eok. destruct Eok as [E1 E2]. apply Nat.eqb_eq in E1. subst pd.
-      exists b, pn. repeat split; auto.
-      * destruct (deg =? 3); [apply Nat.eqb_eq in E2; lia|apply Nat.leb_le in E2; auto].
-      * intros ->. simpl in E2. apply Nat.eqb_eq in E2. auto.
-    + (* reload *) revert He Hz3 Hbad. unfold uses_bad_dir.
-      destruct (resolve (gdir s) bd) as [g dir] eqn:Er. cbn [snd].
-      intros He Hz3 Hbad.
-      unfold load_bs in He.
-      destruct dir as [di|].
-      * cbn [with_gdir dk] in He.
-        destruct (best_file n deg (in_dir di (dk s)) None) as [[k c]|] eqn:Ebf.
-        -- assert (Hk : snd k = deg /\ n <= fst k /\ In (di, k, c) (dk s)).
-           { apply (best_file_spec _ _ _ _ _ (fun r => snd (fst r) = deg /\ n <= fst (fst r) /\ In (di, fst r, snd r) (dk s))) in Ebf.
-             - exact Ebf.
-             - intros a Ha. discriminate.
-             - intros k' c' Hin Hd Hn. cbn [fst snd]. repeat split; auto. apply in_dir_In; auto. }
-           destruct Hk as (Hk1 & Hk2 & Hk3). pose proof (Hh _ _ _ Hk3) as Hc.
-           destruct c as [c|e|]; [|destruct e|contradiction].
-           ++ inversion He; subst s1 oe. clear He. subst c.
-              set (b' := if n <? lastsz then crop n (ideal (fst k) (snd k)) else ideal (fst k) (snd k)).
-              assert (Hgb : good_b b' n (snd k)).
-              { assert (Hn3 : snd k = 3 -> fst k = n).
-                { intros E3. rewrite <- Hk1 in Hz3. rewrite E3 in Hz3. cbn [Nat.eqb andb] in Hz3.
-                  apply Nat.ltb_ge in Hz3. lia. }
-                unfold b', crop, good_b. cbn [b_size ideal].
-                destruct (n <? lastsz); [destruct (n <? fst k) eqn:E4|];
-                  cbn [b_deg b_gen b_size b_junk ideal]; repeat split; auto; try lia;
-                  try (intros E3; specialize (Hn3 E3); apply Nat.ltb_lt in E4; lia);
-                  try (intros E3; specialize (Hn3 E3); lia). }
-              split.
-              ** unfold Inv. cbn [bs bs_prm tr tr_prm dk]. rewrite Hk1 in Hgb. split; auto.
-              ** intros _. exists b', n. cbn [bs bs_prm]. repeat split; auto.
-           ++ inversion He; subst. split; [apply Inv_with_gdir; auto|discriminate].
-           ++ (* ValueError caught: regenerate *)
-              cbn [dir_writable] in He. apply negb_false_iff in Hbad. cbn [dir_writable] in Hbad.
-              rewrite Hbad in He. inversion He; subst s1 oe. clear He. split.
-              ** unfold Inv. cbn [bs bs_prm tr tr_prm dk]. split.
-                 --- split; auto. unfold good_b, ideal. cbn. repeat split; auto.
-                 --- apply honest_put; auto.
-              ** intros _. exists (ideal n deg), n. cbn [bs bs_prm]. repeat split; auto.
-           ++ inversion He; subst. split; [apply Inv_with_gdir; auto|discriminate].
-           ++ inversion He; subst. split; [apply Inv_with_gdir; auto|discriminate].
-        -- apply negb_false_iff in Hbad. rewrite Hbad in He. inversion He; subst s1 oe. clear He. split.
-           ** unfold Inv. cbn [bs bs_prm tr tr_prm dk]. split.
-              --- split; auto. unfold good_b, ideal. cbn. repeat split; auto.
-              --- apply honest_put; auto.
-           ** intros _. exists (ideal n deg), n. cbn [bs bs_prm]. repeat split; auto.
-      * inversion He; subst s1 oe. clear He. split.
-        -- unfold Inv. cbn [bs bs_prm tr tr_prm dk with_gdir]. split; auto.
-           split; auto. unfold good_b, ideal. cbn. repeat split; auto.
-        -- intros _. exists (ideal n deg), n. cbn [bs bs_prm]. repeat split; auto.
-  - destruct (bs_prm s) as [[pn pd]|] eqn:Ep; [contradiction|].
-    revert He Hz3 Hbad. unfold uses_bad_dir.
-    destruct (resolve (gdir s) bd) as [g dir] eqn:Er. cbn [snd].
-    intros He Hz3 Hbad.
-    unfold load_bs in He.
-    destruct dir as [di|].
-    + cbn [with_gdir dk] in He.
-      destruct (best_file n deg (in_dir di (dk s)) None) as [[k c]|] eqn:Ebf.
-      * assert (Hk : snd k = deg /\ n <= fst k /\ In (di, k, c) (dk s)).
-        { apply (best_file_spec _ _ _ _ _ (fun r => snd (fst r) = deg /\ n <= fst (fst r) /\ In (di, fst r, snd r) (dk s))) in Ebf.
-          - exact Ebf.
-          - intros a Ha. discriminate.
-          - intros k' c' Hin Hd Hn. cbn [fst snd]. repeat split; auto. apply in_dir_In; auto. }
-        destruct Hk as (Hk1 & Hk2 & Hk3). pose proof (Hh _ _ _ Hk3) as Hc.
-        destruct c as [c|e|]; [|destruct e|contradiction].
-        -- inversion He; subst s1 oe. clear He. subst c.
-           set (b' := if n <? lastsz then crop n (ideal (fst k) (snd k)) else ideal (fst k) (snd k)).
-           assert (Hgb : good_b b' n (snd k)).
-           { assert (Hn3 : snd k = 3 -> fst k = n).
-             { intros E3. rewrite <- Hk1 in Hz3. rewrite E3 in Hz3. cbn [Nat.eqb andb] in Hz3.
-               apply Nat.ltb_ge in Hz3. lia. }
-             unfold b', crop, good_b. cbn [b_size ideal].
-             destruct (n <? lastsz); [destruct (n <? fst k) eqn:E4|];
-               cbn [b_deg b_gen b_size b_junk ideal]; repeat split; auto; try lia;
-               try (intros E3; specialize (Hn3 E3); apply Nat.ltb_lt in E4; lia);
-               try (intros E3; specialize (Hn3 E3); lia). }
-           split.
-           ++ unfold Inv. cbn [bs bs_prm tr tr_prm dk]. rewrite Hk1 in Hgb. split; auto.
-           ++ intros _. exists b', n. cbn [bs bs_prm]. repeat split; auto.
-        -- inversion He; subst. split; [apply Inv_with_gdir; auto|discriminate].
-        -- apply negb_false_iff in Hbad. rewrite Hbad in He. inversion He; subst s1 oe. clear He. split.
-           ++ unfold Inv. cbn [bs bs_prm tr tr_prm dk]. split.
-              ** split; auto. unfold good_b, ideal. cbn. repeat split; auto.
-              ** apply honest_put; auto.
-           ++ intros _. exists (ideal n deg), n. cbn [bs bs_prm]. repeat split; auto.
-        -- inversion He; subst. split; [apply Inv_with_gdir; auto|discriminate].
-        -- inversion He; subst. split; [apply Inv_with_gdir; auto|discriminate].
-      * apply negb_false_iff in Hbad. rewrite Hbad in He. inversion He; subst s1 oe. clear He. split.
-        -- unfold Inv. cbn [bs bs_prm tr tr_prm dk]. split.
-           ++ split; auto. unfold good_b, ideal. cbn. repeat split; auto.
-           ++ apply honest_put; auto.
-        -- intros _. exists (ideal n deg), n. cbn [bs bs_prm]. repeat split; auto.
-    + inversion He; subst s1 oe. clear He. split.
-      * unfold Inv. cbn [bs bs_prm tr tr_prm dk with_gdir]. split; auto.
-        split; auto. unfold good_b, ideal. cbn. repeat split; auto.
-      * intros _. exists (ideal n deg), n. cbn [bs bs_prm]. repeat split; auto.
-Qed.
-
-(* a call can raise only because a damaged file is on disk *)
-Lemma ensure_raise : forall s n deg bd lastsz s1 e,
-  Inv s -> uses_bad_dir s bd = false ->
-  ensure_bs s n deg bd lastsz = (s1, Some e) ->
-  exists di k pe, In (di, k, FBad pe) (dk s).
-Proof.
-  intros s n deg bd lastsz s1 e [HI Hh] Hbad He.
-  unfold ensure_bs, bs_ok in He. unfold uses_bad_dir in Hbad.
-  assert (Hmain : forall g dir, resolve (gdir s) bd = (g, dir) ->
-            match load_bs dir n deg lastsz (dk (with_gdir s g)) with
+  (* the reload path, common to "nothing cached" and "cached for other parameters" *)
+  assert (Hreload : forall g dir, resolve (gdir s) bd = (g, dir) ->
+            match load_bs dir n deg (dk (with_gdir s g)) with
             | LRaise e0 => (with_gdir s g, Some e0)
             | LSome b => ({| bs := Some b; bs_prm := Some (n, deg); tr := None; tr_prm := None;
                              gdir := g; dk := dk (with_gdir s g) |}, None)
@@ -499,7 +400,87 @@ Proof.
                     then ({| bs := Some (ideal n deg); bs_prm := Some (n, deg); tr := None; tr_prm := None;
                              gdir := g;
                              dk := put_file fkey_eqb di (n, deg) (FGood (ideal n deg)) (dk (with_gdir s g)) |}, None)
-                    else (with_bs (with_gdir s g) (Some (ideal n deg)), Some EOther)
+                    else (with_gdir s g, Some EOther)
+                | None => ({| bs := Some (ideal n deg); bs_prm := Some (n, deg); tr := None; tr_prm := None;
+                              gdir := g; dk := dk (with_gdir s g) |}, None)
+                end
+            end = (s1, oe) ->
+            Inv s1 /\
+            (oe = None -> exists b pn, bs s1 = Some b /\ bs_prm s1 = Some (pn, deg) /\
+                                       n <= pn /\ (deg = 3 -> pn = n))).
+  { intros g dir Er Hl. unfold uses_bad_dir in Hbad. rewrite Er in Hbad. cbn [snd] in Hbad.
+    assert (Hgen : forall d', honest d' ->
+              Inv {| bs := Some (ideal n deg); bs_prm := Some (n, deg); tr := None; tr_prm := None;
+                     gdir := g; dk := d' |}).
+    { intros d' Hd'. unfold Inv. cbn [bs bs_prm tr tr_prm dk]. split; auto.
+      split; auto. unfold good_b, ideal. cbn. repeat split; auto. }
+    unfold load_bs in Hl. cbn [with_gdir dk] in Hl.
+    destruct dir as [di|].
+    - apply negb_false_iff in Hbad. rewrite Hbad in Hl.
+      assert (Hregen : forall s1' oe',
+                ({| bs := Some (ideal n deg); bs_prm := Some (n, deg); tr := None; tr_prm := None; gdir := g;
+                    dk := put_file fkey_eqb di (n, deg) (FGood (ideal n deg)) (dk s) |}, @None exc) = (s1', oe') ->
+                Inv s1' /\
+                (oe' = None -> exists b pn, bs s1' = Some b /\ bs_prm s1' = Some (pn, deg) /\
+                                            n <= pn /\ (deg = 3 -> pn = n))).
+      { intros s1' oe' E. inversion E; subst. split; [apply Hgen; apply honest_put; auto|].
+        intros _. exists (ideal n deg), n. cbn [bs bs_prm]. repeat split; auto. }
+      destruct (best_file n deg (in_dir di (dk s)) None) as [[k c]|] eqn:Ebf; [|apply Hregen; auto].
+      assert (Hk : snd k = deg /\ n <= fst k /\ (deg = 3 -> fst k = n) /\ In (di, k, c) (dk s)).
+      { apply (best_file_spec _ _ _ _ _ (fun r => snd (fst r) = deg /\ n <= fst (fst r) /\
+                                                  (deg = 3 -> fst (fst r) = n) /\ In (di, fst r, snd r) (dk s))) in Ebf.
+        - exact Ebf.
+        - intros a Ha. discriminate.
+        - intros k' c' Hin Hd Hn H3. cbn [fst snd]. repeat split; auto. apply in_dir_In; auto. }
+      destruct Hk as (Hk1 & Hk2 & Hk3 & Hk4). pose proof (Hh _ _ _ Hk4) as Hc.
+      destruct c as [c|e|]; [|destruct e|].
+      + inversion Hl; subst s1 oe. clear Hl. subst c.
+        assert (Hgb : good_b (crop n (ideal (fst k) (snd k))) n (snd k)).
+        { apply crop_ideal_good; auto; rewrite Hk1; auto. }
+        split.
+        * unfold Inv. cbn [bs bs_prm tr tr_prm dk]. rewrite Hk1 in Hgb at 2. split; [split; [exact Hgb|exact I]|exact Hh].
+        * intros _. eexists. exists n. cbn [bs bs_prm]. repeat split; auto.
+      + inversion Hl; subst. split; [apply Inv_with_gdir; auto|discriminate].
+      + apply Hregen; auto.
+      + inversion Hl; subst. split; [apply Inv_with_gdir; auto|discriminate].
+      + inversion Hl; subst. split; [apply Inv_with_gdir; auto|discriminate].
+      + apply Hregen; auto.
+    - inversion Hl; subst s1 oe. split; [apply Hgen; auto|].
+      intros _. exists (ideal n deg), n. cbn [bs bs_prm]. repeat split; auto. }
+  destruct (bs s) as [b|] eqn:Eb.
+  - destruct (bs_prm s) as [[pn pd]|] eqn:Ep; [|contradiction].
+    destruct ((pd =? deg) && (if deg =? 3 then pn =? n else n <=? pn)) eqn:Eok.
+    + inversion He; subst. split; auto. intros _.
+      apply andb_true_iff in Eok. destruct Eok as [E1 E2]. apply Nat.eqb_eq in E1. subst pd.
+      exists b, pn. repeat split; auto.
+      * destruct (deg =? 3); [apply Nat.eqb_eq in E2; lia|apply Nat.leb_le in E2; auto].
+      * intros ->. simpl in E2. apply Nat.eqb_eq in E2. auto.
+    + destruct (resolve (gdir s) bd) as [g dir] eqn:Er. eapply Hreload; eauto.
+  - destruct (bs_prm s) as [[pn pd]|] eqn:Ep; [contradiction|].
+    destruct (resolve (gdir s) bd) as [g dir] eqn:Er. eapply Hreload; eauto.
+Qed.
+
+(* a call can raise only because a damaged file is on disk *)
+Lemma ensure_raise : forall s n deg bd s1 e,
+  Inv s -> uses_bad_dir s bd = false ->
+  ensure_bs s n deg bd = (s1, Some e) ->
+  exists di k pe, In (di, k, FBad pe) (dk s).
+Proof.
+  intros s n deg bd s1 e [HI Hh] Hbad He.
+  unfold ensure_bs, bs_ok in He. unfold uses_bad_dir in Hbad.
+  assert (Hmain : forall g dir, resolve (gdir s) bd = (g, dir) ->
+            match load_bs dir n deg (dk (with_gdir s g)) with
+            | LRaise e0 => (with_gdir s g, Some e0)
+            | LSome b => ({| bs := Some b; bs_prm := Some (n, deg); tr := None; tr_prm := None;
+                             gdir := g; dk := dk (with_gdir s g) |}, None)
+            | LNone =>
+                match dir with
+                | Some di =>
+                    if dir_writable di
+                    then ({| bs := Some (ideal n deg); bs_prm := Some (n, deg); tr := None; tr_prm := None;
+                             gdir := g;
+                             dk := put_file fkey_eqb di (n, deg) (FGood (ideal n deg)) (dk (with_gdir s g)) |}, None)
+                    else (with_gdir s g, Some EOther)
                 | None => ({| bs := Some (ideal n deg); bs_prm := Some (n, deg); tr := None; tr_prm := None;
                               gdir := g; dk := dk (with_gdir s g) |}, None)
                 end
@@ -512,7 +493,7 @@ Proof.
     { apply (best_file_spec _ _ _ _ _ (fun r => In (di, fst r, snd r) (dk s))) in Ebf.
       - exact Ebf.
       - intros a Ha. discriminate.
-      - intros k' c' Hin _ _. apply in_dir_In; auto. }
+      - intros k' c' Hin _ _ _. apply in_dir_In; auto. }
     destruct c as [c|pe|]; try discriminate.
     exists di, k, pe. exact Hk. }
   destruct (bs s) as [b|]; destruct (bs_prm s) as [[pn pd]|]; try contradiction.
@@ -529,11 +510,10 @@ Proof.
   apply negb_false_iff in H. auto.
 Qed.
 
-Lemma hazard_call_parts : forall s n deg rt z fwd bd l,
-  hazard s (Call n deg rt z fwd bd l) = false -> uses_bad_dir s bd = false.
+Lemma hazard_call_parts : forall s n deg rt z fwd bd,
+  hazard s (Call n deg rt z fwd bd) = false -> uses_bad_dir s bd = false.
 Proof.
-  intros. cbn [hazard] in H. apply orb_false_iff in H. destruct H as [H _].
-  apply orb_false_iff in H. destruct H as [_ H]. exact H.
+  intros. cbn [hazard] in H. apply orb_false_iff in H. destruct H as [_ H]. exact H.
 Qed.
 
 Lemma step_good : forall s o s' r,
@@ -543,15 +523,15 @@ Lemma step_good : forall s o s' r,
      out_eqv r (fresh o) = true \/
      exists e di k pe, r = Raise e /\ In (di, k, FBad pe) (dk s)).
 Proof.
-  intros s o s' r HI Hz Hs. destruct o as [n deg rt z fwd bd lastsz|all|bd|bd|d k c|d k].
+  intros s o s' r HI Hz Hs. destruct o as [n deg rt z fwd bd|all|bd|bd|d k c|d k].
   - (* Call *)
     cbn [step] in Hs. unfold step_call in Hs.
-    destruct (ensure_bs s n deg bd lastsz) as [s1 oe] eqn:Ee.
-    destruct (ensure_good _ _ _ rt z fwd _ _ _ _ HI Hz Ee) as [HI1 Hb].
-    pose proof (hazard_call_parts _ _ _ _ _ _ _ _ Hz) as Hbad.
+    destruct (ensure_bs s n deg bd) as [s1 oe] eqn:Ee.
+    destruct (ensure_good _ _ _ rt z fwd _ _ _ HI Hz Ee) as [HI1 Hb].
+    pose proof (hazard_call_parts _ _ _ _ _ _ _ Hz) as Hbad.
     destruct oe as [e|].
     + inversion Hs; subst. split; auto. intros _. right.
-      destruct (ensure_raise _ _ _ _ _ _ _ HI Hbad Ee) as (di & k & pe & Hin).
+      destruct (ensure_raise _ _ _ _ _ _ HI Hbad Ee) as (di & k & pe & Hin).
       exists e, di, k, pe. auto.
     + destruct (Hb eq_refl) as (b & pn & Hbs & Hp & Hn & H3).
       rewrite Hbs in Hs.
@@ -576,7 +556,7 @@ Proof.
     inversion Hs; subst. split; [|discriminate]. destruct HI as [HI0 Hh].
     unfold Inv, with_dk. cbn [bs bs_prm tr tr_prm dk]. split; auto.
     apply honest_put; auto. cbn [hazard] in Hz.
-    destruct c as [b|e|]; auto; [|discriminate].
+    destruct c as [b|e|]; auto.
     apply negb_false_iff in Hz. apply bcont_eqb_eq in Hz. auto.
   - inversion Hs; subst. split; [|discriminate]. destruct HI as [HI0 Hh].
     unfold Inv, with_dk. cbn [bs bs_prm tr tr_prm dk]. split; auto.
@@ -585,29 +565,29 @@ Qed.
 
 (* ---- no damaged file ------------------------------------------------------ *)
 Definition clean (s : st) : Prop :=
-  forall di k c, In (di, k, c) (dk s) -> exists b, c = FGood b.
+  forall di k c, In (di, k, c) (dk s) -> forall pe, c <> FBad pe.
 
 
 Lemma clean_put : forall (d : disk fkey bcont) di k b,
-  (forall di k c, In (di, k, c) d -> exists b, c = FGood b) ->
-  forall di' k' c', In (di', k', c') (put_file fkey_eqb di k (FGood b) d) -> exists b', c' = FGood b'.
+  (forall di k c, In (di, k, c) d -> forall pe, c <> FBad pe) ->
+  forall di' k' c', In (di', k', c') (put_file fkey_eqb di k (FGood b) d) -> forall pe, c' <> FBad pe.
 Proof.
-  intros d di k b H di' k' c' [Hin|Hin].
-  - inversion Hin; subst. eauto.
+  intros d di k b H di' k' c' [Hin|Hin] pe.
+  - inversion Hin; subst. discriminate.
   - apply filter_In in Hin. destruct Hin. eauto.
 Qed.
 
 Lemma step_clean : forall s o s' r,
   clean s -> damage o = false -> hazard s o = false -> step s o = (s', r) -> clean s'.
 Proof.
-  intros s o s' r Hc Hd Hz Hs. destruct o as [n deg rt z fwd bd lastsz|all|bd|bd|d k c|d k].
+  intros s o s' r Hc Hd Hz Hs. destruct o as [n deg rt z fwd bd|all|bd|bd|d k c|d k].
   - cbn [step] in Hs. unfold step_call in Hs.
-    destruct (ensure_bs s n deg bd lastsz) as [s1 oe] eqn:Ee.
+    destruct (ensure_bs s n deg bd) as [s1 oe] eqn:Ee.
     assert (Hc1 : clean s1).
     { revert Ee. unfold ensure_bs. destruct (bs_ok s n deg) as [[|]|e0].
       - intros E; inversion E; subst; auto.
       - destruct (resolve (gdir s) bd) as [g dir].
-        destruct (load_bs dir n deg lastsz (dk (with_gdir s g))).
+        destruct (load_bs dir n deg (dk (with_gdir s g))).
         + destruct dir as [di|].
           * destruct (dir_writable di); intros E; inversion E; subst; unfold clean; cbn [dk with_bs with_gdir]; auto.
             apply clean_put. exact Hc.
@@ -630,8 +610,10 @@ Proof.
     destruct dir; inversion Hs; subst; unfold clean; cbn [dk with_gdir]; auto.
     intros di k c Hin. apply filter_In in Hin. destruct Hin. eapply Hc; eauto.
   - inversion Hs; subst; exact Hc.
-  - inversion Hs; subst. unfold clean, with_dk. cbn [dk].
-    destruct c as [b|e|]; [apply clean_put; exact Hc|discriminate|discriminate].
+  - inversion Hs; subst. unfold clean, with_dk, put_file. cbn [dk].
+    intros di0 k0 c0 [Hi|Hi] pe.
+    + inversion Hi; subst. cbn [damage] in Hd. destruct c0; try discriminate.
+    + apply filter_In in Hi. destruct Hi. eapply Hc; eauto.
   - inversion Hs; subst. unfold clean, with_dk, remove_file. cbn [dk].
     intros di k0 c Hin. apply filter_In in Hin. destruct Hin. eapply Hc; eauto.
 Qed.
@@ -653,7 +635,7 @@ Proof.
   apply andb_true_iff. split; [|apply IH; auto].
   destruct (is_call o) eqn:Eo; [|reflexivity].
   destruct (Hr eq_refl) as [Hok|(e & di & k & pe & _ & Hin)]; [exact Hok|].
-  destruct (Hc _ _ _ Hin) as [b Hb]. discriminate.
+  exfalso. exact (Hc _ _ _ Hin pe eq_refl).
 Qed.
 
 Theorem history_independent : forall ops,
@@ -715,43 +697,28 @@ Proof.
   unfold last_result. rewrite (out_eqv_sound _ _ A1), (out_eqv_sound _ _ A2). reflexivity.
 Qed.
 
-(* ---- refutations (recorded findings) ----------------------------------------- *)
-(* F3: a larger degree-3 basis file is cropped for a smaller request *)
-Definition d3_hist : list op := [Call 20 3 RNone 0 false (BPath 1) 0; Cleanup true].
-Definition d3_call : op := Call 12 3 RNone 0 false (BPath 1) 20.
-
-Theorem daun3_disk_crop_refuted :
-  res_code (last_result d3_hist d3_call) = 0 /\
-  den_out (last_result d3_hist d3_call) <> den_out (fresh d3_call).
-Proof.
-  split; [vm_compute; reflexivity|].
-  vm_compute. intros H. inversion H as [Hf].
-  pose proof (f_equal (fun f => f 0 0) Hf) as Hx. simpl in Hx. discriminate.
-Qed.
-
-(* and it is the only hazard of that history *)
-Example daun3_hist_hazard : no_hazard init (d3_hist ++ [d3_call]) = false /\ no_hazard init d3_hist = true.
+(* ---- the formerly failing histories (fixed in /repo) ---------------------------- *)
+(* cbc57b0: a larger degree-3 basis file is no longer cropped *)
+Definition d3_hist : list op := [Call 20 3 RNone 0 false (BPath 1); Cleanup true].
+Definition d3_call : op := Call 12 3 RNone 0 false (BPath 1).
+Example daun3_no_disk_crop :
+  no_hazard init (d3_hist ++ [d3_call]) = true /\ out_eqv (last_result d3_hist d3_call) (fresh d3_call) = true.
 Proof. split; vm_compute; reflexivity. Qed.
 
-(* a save that fails (unwritable basis_dir) leaves the new basis next to the
-   old key: the next call with the old parameters silently uses it *)
+(* 216552f: a failing save leaves the memory cache as it was *)
 Definition fs_hist : list op :=
-  [Call 10 0 RNone 0 true BNone 0; Call 10 1 RNone 0 true (BPath BADDIR) 0].
-Definition fs_call : op := Call 10 0 RNone 0 true BNone 0.
-
-Theorem failed_save_poisons_refuted :
-  res_code (last_result fs_hist fs_call) = 0 /\
-  den_out (last_result fs_hist fs_call) <> den_out (fresh fs_call).
-Proof.
-  split; [vm_compute; reflexivity|].
-  vm_compute. intros H. inversion H as [Hf].
-  pose proof (f_equal (fun f => f 0 0) Hf) as Hx. simpl in Hx. discriminate.
-Qed.
-
-(* a valid file of a too small shape: the call raises, and keeps raising after
-   the file is removed (the junk stays in _bs under the right key) *)
-Definition ws_call : op := Call 10 0 RNone 0 false (BPath 1) 10.
-Definition ws_hist : list op := [Seed 1 (10, 0) FShape; ws_call; Remove 1 (10, 0)].
-
-Theorem wrong_shape_sticks : res_code (last_result ws_hist ws_call) = 1 /\ res_code (fresh ws_call) = 0.
+  [Call 10 0 RNone 0 true BNone; Call 10 1 RNone 0 true (BPath BADDIR)].
+Definition fs_call : op := Call 10 0 RNone 0 true BNone.
+Example failed_save_harmless :
+  res_code (snd (step (run init [Call 10 0 RNone 0 true BNone]) (Call 10 1 RNone 0 true (BPath BADDIR)))) = exc_code EOther /\
+  out_eqv (last_result fs_hist fs_call) (fresh fs_call) = true.
 Proof. split; vm_compute; reflexivity. Qed.
+
+(* 7ce4ac5: a valid file of a wrong shape is ignored: regenerated and re-saved *)
+Definition ws_call : op := Call 10 0 RNone 0 false (BPath 1).
+Definition ws_hist : list op := [Seed 1 (10, 0) FShape].
+Example wrong_shape_regenerated :
+  no_hazard init (ws_hist ++ [ws_call; Remove 1 (10, 0); ws_call]) = true /\
+  out_eqv (last_result ws_hist ws_call) (fresh ws_call) = true /\
+  out_eqv (last_result (ws_hist ++ [ws_call; Remove 1 (10, 0)]) ws_call) (fresh ws_call) = true.
+Proof. repeat split; vm_compute; reflexivity. Qed.
